@@ -279,6 +279,10 @@ def run(ctx):
     res.rules["P-DEL"] = "remove_edge prunes every id-keyed table and the incidence lists (hash reads them)"
     res.rules["P-NODE"] = "remove_node prunes every node table (hash enumerates nodes from them)"
     res.assumptions += ["SHA-256 / json.dumps are trusted; collision freedom is not decided", "labels and metadata are JSON-representable and mutually comparable (property quantifier)"]
+    with res.guard("general lint pack over the property's files"):
+        from ..lints import check_pack
+
+        check_pack(ctx, res, "C07")
     return res
 
 
